@@ -154,7 +154,7 @@ def run(ctx, out, tier):
                              "the file-system root derives from [%s]; expected repository_root_path(canonicalize(current_dir()))" % util.origins_text({l for l in labs if l[0] == "call"}, 5))
         rr = ctx.facts.bodies.get("bwbin::repository_root_path")
         if rr is not None:
-            region = ctx.facts.with_descendants(rr)
+            region = ctx.region(rr)             # with its closures and helpers
             names = set()
             for rb in region:
                 for bi, t in rb.calls():
@@ -162,8 +162,17 @@ def run(ctx, out, tier):
                         c = util.const_val(ctx, rb, t["args"][1])
                         if isinstance(c, str):
                             names.add(c)
+                # the directory names may come from a constant table (`[".git", ".hg"].iter().any(..)`)
+                for bi, j, s in rb.assigns():
+                    rv = s["rv"]
+                    kk = rv["op"].get("k") if rv["k"] == "use" and isinstance(rv.get("op"), dict) else None
+                    if isinstance(kk, dict) and kk.get("uneval") and re.search(r"\[&str; \d+\]", kk.get("ty") or ""):
+                        rows = util.const_table(ctx, kk)
+                        if rows and all(isinstance(x, str) for x in rows):
+                            names |= set(rows)
             calls = [callee_name(t).split("::")[-1] for rb in region for bi, t in rb.calls()]
-            if names == {".git", ".hg"} and "ancestors" in calls and "is_dir" in calls and ("find" in calls):
+            farthest = [c for c in calls if c in ("rev", "last", "max_by", "max_by_key", "min_by", "min_by_key", "nth", "skip")]
+            if names == {".git", ".hg"} and "ancestors" in calls and "is_dir" in calls and not farthest:
                 k += 1
             else:
                 out.viol("C15.root", "C15.root|search", ctx.where(rr), "repository_root_path looks for %s via %s; expected the nearest ancestor containing a `.git` or `.hg` directory" % (sorted(names), sorted(set(calls))[:8]))
